@@ -4,7 +4,25 @@ use std::path::PathBuf;
 
 use serde_json::{json, Value};
 
-use crate::{errs, guarded, options, s};
+use crate::{errs, options, s};
+
+// catch_unwind that reads the message from the panic payload itself (main.rs' `guarded` goes through one
+// process-wide slot filled by the panic hook, which two threads panicking at once would race on)
+fn guarded<F: FnOnce() -> Value>(f: F) -> Value {
+    match std::panic::catch_unwind(std::panic::AssertUnwindSafe(f)) {
+        Ok(v) => v,
+        Err(p) => {
+            let msg = if let Some(s) = p.downcast_ref::<&str>() {
+                s.to_string()
+            } else if let Some(s) = p.downcast_ref::<String>() {
+                s.clone()
+            } else {
+                "<non-string panic payload>".to_string()
+            };
+            json!({"panic": {"msg": msg}})
+        }
+    }
+}
 
 fn err_text(e: &prqlc::ErrorMessages) -> Value {
     // everything a caller can read from an error: kind, code, reason, hints, span, display, location
